@@ -1,4 +1,4 @@
-import H2V.Lemmas.ConnRecvPFlow
+import H2V.Lemmas.ConnRecvPClear
 /-
   C03 — part 7: `Recv::recv_data` preserves the invariant.  When it answers a stream error
   (`Error::Reset`), the octets of the frame have been taken from the connection window and are not
@@ -38,25 +38,6 @@ theorem recvData_tail_inv {full : Bool} {g : Ghost} {s : Streams} (h : Inv full 
          let s := s.modStream id fun st => { st with pendingRecv := st.pendingRecv ++ [.data payload (!eos)] }
          (s.modStreamW id Stream.notifyRecv, .ok ())).1 := by
   inv_auto
-
-/-- the END_STREAM block of `recv_data` -/
-theorem recvData_eos_inv {full : Bool} {g : Ghost} {d : Int} {s : Streams} (h : InvD full g d s) (id : Nat) (eos : Bool) :
-    InvD full g d
-      (if eos then
-          if !(s.stream id).ensureContentLengthZero then (s, some (PErr.libraryReset (s.stream id).id PROTOCOL_ERROR))
-          else match (s.stream id).state.recvClose with
-            | (_, .error _) => (s, some (PErr.libraryGoAway PROTOCOL_ERROR))
-            | (st', .ok _) => (s.modStream id fun st => { st with state := st' }, none)
-        else (s, none) : Streams × Option PErr).1 := by
-  split
-  · split
-    · exact h
-    · split
-      · exact h
-      · next st' _ hrc =>
-        refine h.of_ext (modStream_ext _ _ _ fun x hx => ?_)
-        exact recvClose_state_same hrc x hx
-  · exact h
 
 /-- what `recv_data` guarantees about the pair it returns: the invariant, with `sz` octets of slack
     when the answer is a stream error -/
